@@ -14,3 +14,16 @@ def nap(i, t):
 
 def big(i, n):
     return ("ok", i, os.getpid(), b"x" * n)
+
+
+def tree(i, n):
+    """A task whose worker has n helper subprocesses (reaped promptly by the worker when they end) while it runs."""
+    import subprocess
+    import threading
+    ps = [subprocess.Popen(["sleep", "60"], stdin=subprocess.DEVNULL) for _ in range(n)]
+    for p in ps:
+        threading.Thread(target=p.wait, daemon=True).start()
+    time.sleep(12)
+    for p in ps:
+        p.kill()
+    return ("ok", i, os.getpid())
